@@ -786,6 +786,10 @@ func propCases(prop string, g *Gen, n int) []*Case {
 		for _, r := range enumPairs(g) {
 			add(&Case{R: r, Obs: obs, Oracles: []string{"C09"}, Hops: [][][]string{knowing1}})
 		}
+		// a message that consists of the separator alone below library layers
+		for _, r := range colonOnlyShapes() {
+			add(&Case{R: r, Obs: obs, Oracles: []string{"C09"}, Hops: [][][]string{knowing1}})
+		}
 		for i := 0; i < n; i++ {
 			add(&Case{R: g.Tree(1 + g.r.intn(5)), Obs: obs, Oracles: []string{"C09"}, Hops: [][][]string{knowing1}})
 		}
